@@ -8,7 +8,7 @@ from harness.core import cN, clist, ctuple, cnat
 from harness.props import c17 as P17
 
 HEADER = ('From Coq Require Import List NArith Arith Bool.\n'
-          'From PC Require Import Model.Isolation Check.C20.\n'
+          'From PC Require Import Base.Libs Model.Isolation Check.C20.\n'
           'Import ListNotations.\n')
 CASE_TYPE = 'C20.case'
 
@@ -297,13 +297,46 @@ class Interner(object):
         return self.t[s]
 
 
-def c_case(ndocs, sched_obs, solo, gl, nshared):
+DCLS = {'DaeError': 'K_DaeError', 'DaeIncompleteError': 'K_DaeIncompleteError', 'DaeBrokenRefError': 'K_DaeBrokenRefError',
+        'DaeMalformedError': 'K_DaeMalformedError', 'DaeUnsupportedError': 'K_DaeUnsupportedError'}
+
+
+def mask_of_obs(o):
+    for el in o:
+        if isinstance(el, list) and el and isinstance(el[-1], str) and el[-1].startswith('caller-lists:'):
+            return el[:-1]
+    return None
+
+
+def mask_observations(progs, per_doc_obs):
+    """for the concrete step model: per document the ignoreErrors arguments in order and the mask seen last"""
+    out = []
+    for p, obs in zip(progs, per_doc_obs):
+        names = p.get('ignore') or []
+        if any(n not in DCLS for n in names) or not obs or obs[0][0] == 'raised':
+            continue
+        calls = [list(names)] if names else []
+        last = None
+        for st, o in zip(p['steps'], obs):
+            if st[:2] == ['edit', 'ignore'] and o[0] == 'ok':
+                calls.append(['DaeMalformedError' if st[2] % 2 else 'DaeUnsupportedError'])
+            m = mask_of_obs(o)
+            if m is not None:
+                last = m
+        if last is not None and all(n in DCLS for n in last):
+            out.append((calls, last))
+    return out
+
+
+def c_case(ndocs, sched_obs, solo, gl, nshared, masks=()):
     I = Interner()
     return ctuple(cnat(ndocs),
                   clist([ctuple(cnat(i), cN(I(d))) for i, d in sched_obs]),
                   clist([clist([cN(I(d)) for d in s]) for s in solo]),
                   clist([ctuple(cN(I(a)), cN(I(b))) for a, b in gl]),
-                  cnat(nshared))
+                  cnat(nshared),
+                  clist([ctuple(clist([clist([DCLS[n] for n in c]) for c in calls]), clist([DCLS[n] for n in last]))
+                         for calls, last in masks]))
 
 
 def short_prog(p):
@@ -507,7 +540,12 @@ def run(ctx):
             dist['schedules'] += 1
             sched_obs = [(s['doc'], s['digest']) for s in res['steps']]
             gl = [(s['g_before'], s['g_after']) for s in res['steps']]
-            terms.append(c_case(len(ps), sched_obs, solo_d, gl, len(res['shared'])))
+            per_doc = [[] for _ in ps]
+            for st_ in res['steps']:
+                per_doc[st_['doc']].append(st_['obs'])
+            mo = mask_observations(ps, per_doc)
+            dist['mask_model_comparisons'] = dist.get('mask_model_comparisons', 0) + len(mo)
+            terms.append(c_case(len(ps), sched_obs, solo_d, gl, len(res['shared']), mo))
             case_inputs.append((payload, {'global_changes': res.get('global_changes', [])[:3], 'shared': res['shared'][:3]}))
             dist['steps'] += len(sched_obs)
             if len(ps) >= 2 and len(set(payload['schedule'])) >= 2:
